@@ -38,6 +38,13 @@ def evaluate(pid, tier, prog, cache):
                                   construct='unrecognised:' + rname)], {})
             except AnalysisError as e:
                 cache[key] = e
+            except Exception as e:      # a rule met a construct it was not written for and fell over: no verdict from it
+                import traceback
+                tb = traceback.extract_tb(e.__traceback__)[-1]
+                cache[key] = ([Ob(rname, 'trees', 'rule %s can analyse its anchor' % rname, None,
+                                  'internal error %s: %s (%s:%d) - the rule gives no verdict on this source'
+                                  % (type(e).__name__, e, tb.filename.split('/')[-1], tb.lineno),
+                                  construct='internal-error:' + rname)], {'internal_errors': [rname]})
         if isinstance(cache[key], AnalysisError):
             # the rule lost an anchor: the other rules of the property still run; the run cannot pass
             errors.append('%s: %s' % (rname, cache[key]))
@@ -54,7 +61,10 @@ def evaluate(pid, tier, prog, cache):
                     construct='vanished:' + rname)]
         obs.extend(o)
         for k, v in c.items():
-            counts[k] = v
+            if k == 'internal_errors':
+                counts.setdefault(k, []).extend(v)
+            else:
+                counts[k] = v
         rules_run.append(rname)
     return obs, counts, rules_run, errors
 
